@@ -4,8 +4,20 @@ from props import common
 
 ID = "C03"
 LEVEL = "proof"
+LEVEL_TEXT = ("Lean 4 theorem fillNp_eq_rows over a transcription of every _numpy method (masked weight vectors per child, batch "
+              "reductions at the leaves incl. the full NaN/+-inf analysis of Average and Deviate): for every live tree in any good "
+              "state, every batch and every non-negative weight vector the vectorised fill equals the per-row fill up to zero-weight "
+              "sparse bins, and successive calls on any split of a batch equal one call; the known finding C03-sum-nan is an explicit "
+              "hypothesis with a kernel-checked negative witness. Tied to /repo by running fill.numpy (unit, scalar, array weights; "
+              "whole and split batches; on empty and pre-filled aggregators; numpy record arrays) against the model's fillNp and "
+              "against per-row fills, with the theorem's hypotheses evaluated on the model's copy of each batch and byte-wise "
+              "comparison of the input arrays.")
+LEVEL_NOTE = ("numpy.histogram / unique / average enter as their contracts; the scalar-weight protocol with unknown batch length is "
+              "outside the model (known finding C03-scalar-weight-count-first, excluded region: scalar/unit weights on trees with "
+              "collections). 'Input arrays unmodified' is a frame condition checked by the harness only.")
+TECHNIQUE = "Lean 4 proof (vectorised = row-wise for all trees/batches) + correspondence against a transcription of _numpy + oracle"
 LEAN_MODULE = "Hg.Props.C03"
-THEOREMS = []
+THEOREMS = ["Hg.C03.fillNp_eq_rows", "Hg.C03.fillNp_split", "Hg.C03.sum_nan_np_differs"]
 CASES = {"quick": 300, "thorough": 10000}
 RULE = ("random tree with at least one quantity-bearing node, a column batch of 0..12 rows over the tree's critical values (NaN, "
         "+-inf, values exactly on edges), weights: unit, a scalar, or a non-negative array (zeros included); fill.numpy of the whole "
@@ -71,7 +83,9 @@ def build(p):
               ("eqdoc_pruned", "v", "r", "vectorised fill differs from per-row fill")]
     # the statement of the C03 theorem, evaluated on the model's copies of these states
     ops += [("mcheck", ["prune", "vp", "v"], "ok"), ("mcheck", ["prune", "rp", "r"], "ok"), ("mcheck", ["same", "vp", "rp"], True),
-            ("mcheck", ["good", "r"], True)]
+            ("mcheck", ["good", "r"], True), ("new", "zf", spec),
+            ("mcheck", ["nphyp", "zf", [(d, eff(w)) for d, w in rows]], [True, True, True, True]),
+            ("mcheck", ["goodrun", "zf", [(d, eff(w)) for d, w in rows]], True)]
     cut = min(p["cut"], len(rows))
     ops += [("new", "s", spec), ("fillsnp", "s", rows[:cut], mode), ("fillsnp", "s", rows[cut:], mode)]
     expect += [("reply", len(ops) - 2, "ok", "fill.numpy (first part of a split batch) raised"),
